@@ -280,6 +280,8 @@ def drive(prop, tier, seed, jobs=None):
     env = dict(os.environ)
     env.setdefault("PYTHONHASHSEED", "0")
     env["PYTHONPATH"] = VERIF
+    if os.environ.get("VERIF_COV"):  # development aid, see vlib/cov.py
+        env["PYTHONPATH"] = os.path.join(VERIF, "vlib", "covsite") + os.pathsep + VERIF
     env["PYTHONDONTWRITEBYTECODE"] = "1"
     for s in range(nshards):
         outp = os.path.join(tmp, "shard%d.jsonl" % s)
